@@ -972,6 +972,7 @@ Proof.
   destruct t as [|c t']; [discriminate|].
   destruct c as [[] [] [] [] [] [] [] []]; try discriminate.
   destruct (find_char ":" (String "d" t') (String.length (String "d" t'))) as [ic|]; [|discriminate].
+  destruct (negb (ascii_prefix (String "d" t') ic)); [discriminate|].
   destruct (Nat.ltb ic 4); [discriminate|].
   destruct (find_char "m" (String "d" t') ic) as [im|]; [|discriminate].
   destruct (Nat.ltb im 2); [discriminate|].
